@@ -24,7 +24,7 @@ RULE = ('a real EventMgr on a temp root and the in-memory ZooKeeper holding /pla
         '(3) service loop: the real EventMgr.run() with its presence DataWatch and placement ChildrenWatch; time.sleep '
         '(the heartbeat) applies the next scripted change - instances placed (JSON or shared YAML manifest), evicted one '
         'by one down to an empty node, presence lost / regained, start with stale files and nothing placed, a connection '
-        'loss while a watch-triggered synchronisation reads a manifest, a placement node the master takes away just before the agent reads it and puts back before the agent\'s next request - and after every change the cache must mirror the '
+        'loss while a watch-triggered synchronisation reads a manifest (half of the time with a log handler whose flush fails as well), an instance evicted between the agent\'s read of its placement and of its manifest (the notification is queued behind the running callback; a read issued from the main thread runs beside the callback thread), a placement whose notification arrives one heartbeat late, a placement node the master takes away just before the agent reads it and puts back before the agent\'s next request - and after every change the cache must mirror the '
         'placement. Watch notifications are delivered on a separate thread (as kazoo does); os._exit is intercepted as '
         'the death of the process, after which a new agent is started on a new session (the supervisor); a '
         'service that exits four times in a row before reaching a heartbeat is checked as it stands. Every other shard runs under the C locale without '
@@ -110,7 +110,20 @@ def service_loop_case(ctx, idx, rng):
         def fake_exit(code):
             raise _ProcessExit(code)
 
+        import logging
+        full_disk = {'armed': False}
+
+        class _FullDiskLog(logging.Handler):
+            def emit(self, record):
+                pass
+
+            def flush(self):
+                if full_disk['armed']:
+                    raise OSError(28, 'No space left on device (injected: log flush)')
+        log_handler = _FullDiskLog()
+        logging.getLogger().addHandler(log_handler)
         flick = {'armed': False, 'gone': None}
+        midread = {'armed': False}
 
         def on_op(client, op, path):
             if client is current['zk'] and flick['gone'] is not None:
@@ -132,6 +145,20 @@ def service_loop_case(ctx, idx, rng):
                     adm.delete(path)
                     log.append(('placement-node-gone-before-read', a_))
                     ctx.count('service_loop_placement_flickered_during_sync')
+            if midread['armed'] and client is current['zk'] and op == 'get' and path.startswith(z.SCHEDULED + '/'):
+                # the instance is evicted between the agent's read of its placement and its read of the manifest.  The
+                # notification is queued behind the callback that is running (kazoo delivers one at a time); a read
+                # issued from the agent's MAIN thread, however, runs beside the callback thread, which handles the
+                # eviction at once
+                midread['armed'] = False
+                a_ = path.rsplit('/', 1)[1]
+                if a_ in placed and adm.exists(z.path.placement(host, a_)):
+                    del placed[a_]
+                    adm.delete(z.path.placement(host, a_))
+                    log.append(('evicted-between-two-reads', a_, 'main-thread' if threading.current_thread() is threading.main_thread() else 'callback-thread'))
+                    ctx.count('service_loop_evicted_between_two_reads')
+                    if threading.current_thread() is threading.main_thread():
+                        pump()
             if fault[0] and client is current['zk'] and op == 'get' and path.startswith(z.SCHEDULED + '/'):
                 fault[0] = False
                 ctx.count('service_loop_connection_loss_injected')
@@ -172,7 +199,7 @@ def service_loop_case(ctx, idx, rng):
         if rng.random() < 0.7:
             adm.create(z.path.server_presence(host), b'{}', ephemeral=True)
 
-        def place():
+        def place(notify=True):
             counter[0] += 1
             a = 'proid.web#%010d' % counter[0]
             yaml_payload = rng.random() < 0.5
@@ -190,7 +217,8 @@ def service_loop_case(ctx, idx, rng):
             placed[a] = exp
             zkutils.put(adm, z.path.placement(host, a), pdata)
             log.append(('place', a, 'yaml' if yaml_payload else 'json', pdata))
-            pump()
+            if notify:
+                pump()
 
         def evict(a):
             del placed[a]
@@ -227,6 +255,10 @@ def service_loop_case(ctx, idx, rng):
             n_step[0] += 1
             if n_step[0] > steps:
                 raise _Stop()
+            if midread.get('late'):
+                # the notification of the placement made just before the last heartbeat arrives only now
+                midread.update(armed=False, late=False)
+                pump()
             check('heartbeat %d' % n_step[0])
             if adm.exists(z.path.placement(host)) is None:
                 if rng.random() < 0.6:
@@ -234,7 +266,22 @@ def service_loop_case(ctx, idx, rng):
                     log.append(('placement-node',))
                     pump()
                 return
-            op = rng.choice(['place', 'place', 'place2', 'evict', 'evict', 'evict-all', 'presence', 'fault', 'flicker'])
+            op = rng.choice(['place', 'place', 'place2', 'evict', 'evict', 'evict-all', 'presence', 'fault', 'flicker', 'evict-mid-read', 'place-late-notice'])
+            if op == 'place-late-notice':
+                # an instance is placed right before the agent's main loop wakes up; the watch notification reaches the
+                # callback thread a moment later (whatever the main thread reads about the instance meanwhile may be
+                # overtaken by its eviction)
+                place(notify=False)
+                midread.update(armed=True, late=True)
+                ctx.count('service_loop_placements_noticed_late')
+                return
+            if op == 'evict-mid-read':
+                midread['armed'] = True
+                place()
+                midread['armed'] = False
+                pump()
+                check('evict-mid-read')
+                return
             if op == 'flicker':
                 flick['armed'] = True
                 place()
@@ -250,8 +297,15 @@ def service_loop_case(ctx, idx, rng):
                 # the callback fails, the process exits, its supervisor restarts it and the restart synchronises
                 fault[0] = True
                 log.append(('connection-loss-armed',))
-                place()
-                fault[0] = False
+                # (half of the time the log sits on a disk that is full as well: flushing a log handler fails)
+                full_disk['armed'] = rng.random() < 0.5
+                if full_disk['armed']:
+                    ctx.count('service_loop_faults_with_failing_log_flush')
+                try:
+                    place()
+                finally:
+                    fault[0] = False
+                    full_disk['armed'] = False
             elif op == 'place':
                 place()
             elif op == 'place2':
@@ -311,6 +365,7 @@ def service_loop_case(ctx, idx, rng):
             os._exit = real_exit
             srv.sync_delivery = True
             srv.on_op = None
+            logging.getLogger().removeHandler(log_handler)
         if stale:
             ctx.count('service_loop_started_with_stale_files')
         ctx.count('service_loop_cases')
